@@ -525,3 +525,129 @@ pub fn run_nogc(src: &str, max_steps: u64) -> (String, String) {
     (r.out, r.outcome)
 }
 
+// ---------------------------------------------------------------- several green threads
+/// Programs with tasks: every green thread has its own heap and its own collector.  Captured values are deep
+/// copies; channels carry scalars only here (heap payloads crossing threads are property C09 / finding D23).
+pub fn task_program(seed: u64) -> String {
+    let mut r = Rng::new(seed);
+    let ntasks = 1 + r.below(3) as usize;
+    let mut s = String::from("type Bx = { name: string, items: array<string> }\n");
+    s.push_str("let res: channel<int> = channel()\n");
+    s.push_str(&format!("let shared: array<string> = [\"s-\" .. {}, \"t-\" .. {}]\n", r.below(9), r.below(9)));
+    s.push_str("let bx = Bx(\"bx-\" .. 1, shared)\n");
+    for t in 0..ntasks {
+        let n = 2 + r.below(7);
+        s.push_str("task {\n");
+        s.push_str("  let loc: array<string> = []\n  var i = 0\n");
+        s.push_str(&format!("  while i < {n} {{\n    loc.push(\"k{t}-\" .. i)\n"));
+        match r.below(3) {
+            0 => s.push_str("    if i % 2 == 0 {\n      let d = loc.pop()\n    }\n"),
+            1 => s.push_str("    let moved: array<string> = []\n    moved.push(loc.pop())\n    loc.push(moved.pop() .. \"!\")\n"),
+            _ => s.push_str("    bx.name = loc[0] .. i\n"),
+        }
+        s.push_str("    i = i + 1\n  }\n");
+        if r.chance(1, 2) {
+            s.push_str("  shared.push(\"own copy\")\n");
+        }
+        s.push_str("  res.write(loc.len() * 100 + shared.len() * 10 + bx.items.len())\n}\n");
+    }
+    let m = 2 + r.below(8);
+    s.push_str(&format!("var j = 0\nwhile j < {m} {{\n  let g = \"m\" .. j\n  shared.push(g)\n  let q = shared.pop()\n  j = j + 1\n}}\n"));
+    s.push_str(&format!("var got = 0\nvar sum = 0\nwhile got < {ntasks} {{\n  sum = sum + res.read()\n  got = got + 1\n}}\n"));
+    s.push_str("println(sum)\nprintln(shared)\nprintln(bx.name)\n");
+    s
+}
+
+const EMPTY_SNAP: &str = "phase=i idx=0 heap= roots= gray=";
+
+/// Like `run_scheduled` (validated mode), but for every green thread in the run queue: a thread's first
+/// observed state must follow from the empty state by the mutator contract, every later change of its
+/// collector-visible state is one contract check, and collector increments (k per scheduler turn, applied
+/// to every queued thread) must equal the model's `gcStep`.
+pub fn run_scheduled_mt(src: &str, sched: &Sched, max_steps: u64) -> RunOut {
+    let mut ro = RunOut { out: String::new(), outcome: String::new(), cases: vec![], spec: vec![], vm_steps: 0, gc_steps: 0, cycles: 0, max_heap_objs: 0, cycle_spec: vec![], cycles_checked: 0 };
+    let program = match compile_bytecode("main.abra", provider(src, &[])) {
+        Ok(p) => p,
+        Err(e) => {
+            ro.outcome = format!("rejected {}", e.to_string().lines().next().unwrap_or(""));
+            return ro;
+        }
+    };
+    verif_gc::set_manual(true);
+    let mut rt = Runtime::new(program);
+    let mut rn = Renamer { map: HashMap::new() };
+    let mut rng = Rng::new(match sched { Sched::Random { seed, .. } => *seed, _ => 0 });
+    let mut last: HashMap<u64, String> = HashMap::new();
+    let observe = |rt: &mut Runtime, last: &mut HashMap<u64, String>, rn: &mut Renamer, ro: &mut RunOut, tag: &str| {
+        let snaps: Vec<(u64, String)> = rt.iter_threads_mut().map(|t| (t.id(), verif_gc::snapshot(t))).collect();
+        for (id, s) in snaps {
+            let prev = last.get(&id).cloned().unwrap_or_else(|| EMPTY_SNAP.to_string());
+            if prev != s {
+                let p = parse_snap(&s);
+                ro.max_heap_objs = ro.max_heap_objs.max(p.heap.len());
+                if let Some(a) = dangling(&p) {
+                    ro.spec.push(format!("thread {id} {tag}: address {a} is reachable from the roots but not allocated (phase {})", p.phase));
+                }
+                ro.cases.push((format!("gc mut {} {} #t{}{}", rn.canon(&prev), rn.canon(&s), id, tag), "ok".into()));
+                last.insert(id, s);
+            }
+        }
+    };
+    loop {
+        let status = rt.run_n_steps(1);
+        ro.vm_steps += status.steps_consumed as u64;
+        let done = match &status.kind {
+            RuntimeStatusKind::Done => Some("done".to_string()),
+            RuntimeStatusKind::MainThreadError(e) => Some(format!("error:{}", error_kind(&e.to_string()))),
+            _ => None,
+        };
+        if let Some(d) = done {
+            ro.outcome = d;
+            break;
+        }
+        observe(&mut rt, &mut last, &mut rn, &mut ro, "");
+        if matches!(status.kind, RuntimeStatusKind::PendingHostFunc) {
+            service_host(&mut rt, &mut ro.out);
+            observe(&mut rt, &mut last, &mut rn, &mut ro, "host");
+        }
+        let k = match sched {
+            Sched::From { start, k } => if ro.vm_steps >= *start { *k } else { 0 },
+            Sched::Random { num, max, .. } => if rng.below(8) < *num { 1 + rng.below(*max as u64) as u32 } else { 0 },
+        };
+        for _ in 0..k {
+            for t in rt.iter_threads_mut() {
+                let id = t.id();
+                let b = verif_gc::snapshot(t);
+                verif_gc::step(t);
+                let a = verif_gc::snapshot(t);
+                ro.gc_steps += 1;
+                if b.starts_with("phase=s") && a.starts_with("phase=i") {
+                    ro.cycles += 1;
+                }
+                let p = parse_snap(&a);
+                if let Some(x) = dangling(&p) {
+                    ro.spec.push(format!("thread {id} after a collector increment: address {x} is reachable from the roots but not allocated (phase {})", p.phase));
+                }
+                let (hs, _) = verif_gc::heap_bytes(t);
+                let rc = verif_gc::heap_recount(t);
+                if hs != rc && ro.cycle_spec.len() < 3 {
+                    ro.cycle_spec.push(format!("thread {id}: heap accounting drift: heap_size {hs} but the heap list holds {rc} bytes"));
+                }
+                ro.cases.push((format!("gc step {} {} #t{}", rn.canon(&b), rn.canon(&a), id), "ok".into()));
+                last.insert(id, a);
+            }
+        }
+        if !ro.spec.is_empty() {
+            ro.outcome = "stopped: reachable object reclaimed".into();
+            verif_gc::set_manual(false);
+            std::mem::forget(rt);
+            return ro;
+        }
+        if ro.vm_steps > max_steps {
+            ro.outcome = "timeout".into();
+            break;
+        }
+    }
+    verif_gc::set_manual(false);
+    ro
+}
